@@ -1,4 +1,6 @@
 import JSL.Model.Env
+import JSL.Inv.Blind
+import JSL.Props.Example
 
 /-!
 # C13 — same configuration, seed and actions give the same episode
@@ -7,6 +9,11 @@ In the model an episode is a function of (instance, initial state, configuration
 sampled values, agent actions): determinism is the fact that `envStep` is a function.  The seed
 enters only through the oracle (the values each stochastic duration object yields, one per
 `update()`), and a time configuration that is a constant never consults it.
+
+For an instance **without stochastic elements** (`DetInst`: every duration, setup, travel and
+outage time or frequency a constant) the sampled values are never consulted at all:
+`c13_deterministic_reset_ignores_seed`, `c13_deterministic_step_ignores_seed` and, for whole
+episodes under any action sequence, `c13_deterministic_episode_ignores_seed`.
 
 What the model cannot exhibit – interpreter hash randomisation, process-global random state,
 other environment objects alive – is checked on the implementation by replaying episodes in fresh
@@ -43,5 +50,76 @@ theorem c13_same_samples_same_step (orc orc' : Oracle) (h : ∀ sid k, orc sid k
     (envStep orc' inst ec st e a).map (fun o => (o.env.res, o.reward, o.env.terminated, o.env.truncated)) := by
   have : orc = orc' := funext fun sid => funext fun k => h sid k
   subst this; rfl
+
+/-! ### instances without stochastic elements -/
+
+/-- everything an episode step shows to the outside (the update counters are internal) -/
+def StepOut.view (o : StepOut) : SMResult × SMResult × Bool × Rat × Bool × Bool × Bool × Option Int × MwState × List State :=
+  (o.env.res, o.obsRes, o.obsDone, o.reward, o.env.terminated, o.env.truncated, o.env.done, o.makespan, o.env.mw, o.micro)
+
+/-- an episode from an environment state on: every agent action gives what the step shows, or
+the error it raises (which leaves the episode where it was) -/
+def runFrom (orc : Oracle) (inst : Instance) (ec : EnvCfg) (st : RewardStatic) :
+    EnvState → List AgentAct → List (Except Err (SMResult × SMResult × Bool × Rat × Bool × Bool × Bool × Option Int × MwState × List State))
+  | _, [] => []
+  | e, a :: as =>
+    match envStep orc inst ec st e a with
+    | .error er => .error er :: runFrom orc inst ec st e as
+    | .ok o => .ok o.view :: runFrom orc inst ec st o.env as
+
+/-- `reset`, then the actions -/
+def episode (orc : Oracle) (inst : Instance) (ec : EnvCfg) (st : RewardStatic) (s0 : State) (r : Rng) (as : List AgentAct) :
+    Except Err (SMResult × List (Except Err (SMResult × SMResult × Bool × Rat × Bool × Bool × Bool × Option Int × MwState × List State))) :=
+  (envReset orc inst ec s0 r).map fun p => (p.1.res, runFrom orc inst ec st p.1 as)
+
+/-- **C13, deterministic instances: `reset` does not depend on the seed** (neither on the sampled
+values nor on how many were drawn before): same state, offers and flags; the counters come back
+untouched. -/
+theorem c13_deterministic_reset_ignores_seed {inst : Instance} (hd : DetInst inst) (orc orc' : Oracle) (r r' : Rng)
+    (ec : EnvCfg) (s0 : State) :
+    envReset orc' inst ec s0 r' = (envReset orc inst ec s0 r).map (fun p => ({ p.1 with rng := r' }, p.2)) :=
+  envReset_blind orc orc' r r' hd ec s0
+
+/-- **C13, deterministic instances: a step does not depend on the seed.** -/
+theorem c13_deterministic_step_ignores_seed {inst : Instance} (hd : DetInst inst) (orc orc' : Oracle) (r' : Rng)
+    (ec : EnvCfg) (st : RewardStatic) (e : EnvState) (a : AgentAct) :
+    envStep orc' inst ec st { e with rng := r' } a =
+      (envStep orc inst ec st e a).map (fun o => { o with env := { o.env with rng := r' } }) :=
+  envStep_blind orc orc' r' hd ec st e a
+
+theorem runFrom_ignores_seed {inst : Instance} (hd : DetInst inst) (orc orc' : Oracle) (ec : EnvCfg) (st : RewardStatic) :
+    ∀ (as : List AgentAct) (e : EnvState) (r' : Rng),
+      runFrom orc' inst ec st { e with rng := r' } as = runFrom orc inst ec st e as
+  | [], _, _ => rfl
+  | a :: as, e, r' => by
+    unfold runFrom
+    rw [envStep_blind orc orc' r' hd ec st e a]
+    cases envStep orc inst ec st e a with
+    | error er =>
+      simp only [except_map'_error]
+      rw [runFrom_ignores_seed hd orc orc' ec st as e r']
+    | ok o =>
+      simp only [except_map'_ok]
+      rw [runFrom_ignores_seed hd orc orc' ec st as o.env r']
+      rfl
+
+/-- **C13, deterministic instances: the whole episode does not depend on the seed** – for every
+action sequence (declines, accepts, actions outside the space), two oracles of sampled values and
+two histories of earlier draws give the same reset result and the same outcome of every step. -/
+theorem c13_deterministic_episode_ignores_seed {inst : Instance} (hd : DetInst inst) (orc orc' : Oracle) (r r' : Rng)
+    (ec : EnvCfg) (st : RewardStatic) (s0 : State) (as : List AgentAct) :
+    episode orc' inst ec st s0 r' as = episode orc inst ec st s0 r as := by
+  unfold episode
+  rw [envReset_blind orc orc' r r' hd ec s0]
+  generalize envReset orc inst ec s0 r = x
+  cases x with
+  | error e => simp only [except_map'_error]
+  | ok p =>
+    obtain ⟨e0, mic⟩ := p
+    simp only [except_map'_ok]
+    rw [runFrom_ignores_seed hd orc orc' ec st as e0 r']
+
+/-- non-vacuity: the example instance has no stochastic element -/
+example : DetInst Ex.inst := detInstB_sound (by decide)
 
 end JSL
